@@ -34,6 +34,18 @@ theorem exec_reach_aux {P fuel} (os : List Op) : ∀ {pre m0 m}, Reach P pre m0 
       simpa [List.append_assoc] using this
     · cases he
 
+theorem execMarks_exec {P fuel} (os : List Op) : ∀ {m0 marks m mk}, execMarks P fuel os m0 marks = some (m, mk) →
+    exec P fuel os m0 = some m := by
+  induction os with
+  | nil => intro m0 marks m mk h; simp [execMarks] at h; simp [exec, h.1]
+  | cons o os ih =>
+    intro m0 marks m mk h
+    simp only [execMarks] at h
+    simp only [exec]
+    split at h
+    · exact ih h
+    · cases h
+
 /-! ## events -/
 
 def isFired (id : Nat) : Ev → Bool
